@@ -71,9 +71,11 @@ def units(tier, seed):
 # reference predictions on the JSON tree
 
 
-def map_inline(model, node, base, frm, to, fn, parent=None):
+def map_inline(model, node, base, frm, to, fn, parent=None, containers="atom"):
     """Copy of the JSON tree where fn(marks, parent_type) -> marks is applied to every inline leaf / text part
-    inside [frm, to); text nodes are split at the range borders and re-merged."""
+    inside [frm, to); text nodes are split at the range borders and re-merged.  Inline nodes WITH content are
+    affected themselves when their opening token lies in the range: always for removals (containers="all"), only
+    if they are atoms for additions (containers="atom")."""
     t = model.types[node["type"]]
     if t.is_text or t.is_leaf:
         return node
@@ -109,7 +111,13 @@ def map_inline(model, node, base, frm, to, fn, parent=None):
                     n["marks"] = marks
             out.append(n)
         else:
-            out.append(map_inline(model, k, pos + 1, frm, to, fn, node))
+            inner = map_inline(model, k, pos + 1, frm, to, fn, node, containers)
+            if kt.is_inline and frm <= pos < to and (containers == "all" or kt.atom):
+                marks = fn(k.get("marks") or [], node["type"])
+                inner = {x: y for x, y in inner.items() if x != "marks"}
+                if marks:
+                    inner["marks"] = marks
+            out.append(inner)
         pos += size
     # merge adjacent text with equal marks
     merged = []
@@ -133,7 +141,8 @@ def predict_add_mark(model, d, frm, to, mark):
             return marks
         return rmk.add(model, mark, marks)
 
-    return map_inline(model, d, 0, frm, to, fn)
+    # the statement: EVERY inline node in the range whose parent allows the mark carries it
+    return map_inline(model, d, 0, frm, to, fn, containers="all")
 
 
 def predict_remove_mark(model, d, frm, to, mark=None, mark_type=None):
@@ -144,7 +153,7 @@ def predict_remove_mark(model, d, frm, to, mark=None, mark_type=None):
             return rmk.remove_type(mark_type, marks)
         return []
 
-    return map_inline(model, d, 0, frm, to, fn)
+    return map_inline(model, d, 0, frm, to, fn, containers="all")
 
 
 def replace_node_at(model, d, pos, fn):
